@@ -68,3 +68,67 @@ def tables_statement : Prop :=
   (∀ m : Nat, 1 ≤ m → m ≤ 13 → Gen.kMonthOffsets1.getD m 0 = (if m = 13 then 366 else daysBeforeMonth 1972 m))
 
 end Cctz.C01Rule
+
+/-! ## proofs (helper lemmas: Cctz/Proofs/RuleExtend.lean, RuMonth.lean, RuMonthTable.lean) -/
+
+namespace Cctz.C01Rule
+open Cctz Cctz.Tz Cctz.Spec
+
+theorem tables : tables_statement := ⟨Ru.tables0, Ru.tables1⟩
+
+theorem transOffset : transOffset_statement := by
+  intro date time y hg
+  exact Ru.transOffset_spec date time y hg
+
+example : DateInGrammar ⟨.M, 3, 2, 0⟩ := by unfold DateInGrammar; decide
+example : DateInGrammar ⟨.J, 60, 0, 0⟩ := by unfold DateInGrammar; decide
+example : DateInGrammar ⟨.N, 365, 0, 0⟩ := by unfold DateInGrammar; decide
+
+theorem ruleDay_periodic : ruleDay_periodic_statement := by
+  intro date y _
+  exact Ru.ruleDay_add_400 date y
+
+theorem ruleInstant_periodic : ruleInstant_periodic_statement := by
+  intro date time off y _
+  exact Ru.ruleInstant_add_400 date time off y
+
+theorem inv_init (tr : Array Transition) (y0 : Int) :
+    Ru.Inv { trans := tr, lastYear := y0, jan1Time := dayNum y0 1 1 * 86400,
+             jan1Weekday := jan1Weekday y0, leap := Spec.isLeap y0 } y0 :=
+  ⟨rfl, rfl, rfl, rfl⟩
+
+theorem extendLoop_state : extendLoop_state_statement := by
+  intro posix dstTi stdTi lastTime stdOff dstOff n y0 tr
+  exact Ru.extendLoop_lastYear posix dstTi stdTi lastTime stdOff dstOff n _ _ (inv_init tr y0)
+
+theorem yearPair_eq (posix : Posix.TimeZone) (dstTi stdTi : Nat) (lastTime stdOff dstOff : Int)
+    (sd ed : Posix.Date) (st et : Int) (hs : posix.dstStart = ⟨some sd, some st⟩)
+    (he : posix.dstEnd = ⟨some ed, some et⟩) (y : Int) :
+    yearPair posix dstTi stdTi lastTime stdOff dstOff y =
+      Ru.yearPairL sd st ed et dstTi stdTi lastTime stdOff dstOff y := by
+  unfold yearPair Ru.yearPairL
+  rw [hs, he]
+  rfl
+
+theorem extendLoop_trans : extendLoop_trans_statement := by
+  intro posix dstTi stdTi lastTime stdOff dstOff n y0 tr sd ed st et hs he gs ge
+  have h := Ru.extendLoop_trans_list posix dstTi stdTi lastTime stdOff dstOff sd ed st et hs he gs ge n
+    _ _ (inv_init tr y0)
+  simp only [yearPair_eq posix dstTi stdTi lastTime stdOff dstOff sd ed st et hs he]
+  exact h
+
+/-- the hypotheses of `extendLoop_trans` hold for the US rule `M3.2.0/2,M11.1.0/2`, and the year
+pair of 2024 under EST/EDT is 2024-03-10 07:00:00 UTC and 2024-11-03 06:00:00 UTC -/
+def usRule : Posix.TimeZone :=
+  { dstStart := ⟨some ⟨.M, 3, 2, 0⟩, some 7200⟩, dstEnd := ⟨some ⟨.M, 11, 1, 0⟩, some 7200⟩ }
+
+example : usRule.dstStart = ⟨some ⟨.M, 3, 2, 0⟩, some 7200⟩ ∧
+    usRule.dstEnd = ⟨some ⟨.M, 11, 1, 0⟩, some 7200⟩ ∧
+    DateInGrammar ⟨.M, 3, 2, 0⟩ ∧ DateInGrammar ⟨.M, 11, 1, 0⟩ :=
+  ⟨rfl, rfl, by unfold DateInGrammar; decide, by unfold DateInGrammar; decide⟩
+
+example : yearPair usRule 1 0 0 (-18000) (-14400) 2024 =
+    [{ unixTime := 1710054000, typeIndex := 1 }, { unixTime := 1730613600, typeIndex := 0 }] := by
+  decide +kernel
+
+end Cctz.C01Rule
